@@ -191,3 +191,20 @@ package inhibit
 //@   loop 1 invariant forall k int :: 0 <= k && k < len(ih.rules) ==> ih.rules[k] != nil && ih.rules[k].scache != nil && ih.rules[k].sindex != nil
 //@   assigns nothing
 //@   noeffect GetTextMapPropagator
+
+// ---- C03: how the inhibitor is fed. Every alert the provider held at subscription time and every alert delivered on
+// the subscription afterwards is handed to processAlert (the only exception: a delivery during which the iterator
+// reports an error); loading is reported finished only after all initial alerts; the loop ends only when told.
+//@ func (*Inhibitor).run
+//@   props C03
+//@   abstract
+//@   nosafe
+//@   ensures [stops-only-when-told] called("select") && ret("select") == 0
+//@   at call WaitGroup).Done assert [loaded-after-every-initial-alert] count("Inhibitor).processAlert") == len(ret("SlurpAndSubscribe"))
+//@   at call Inhibitor).processAlert assert [the-alert-itself] arg0 == ih
+//@             && (!called("WaitGroup).Done") ==> arg2 == ret("SlurpAndSubscribe")[rangeindex1 + 1])
+//@             && (called("WaitGroup).Done") ==> ret("select") == 1 && arg2 == ret("recvcase.value1").Data)
+//@   ensures [every-delivery-is-processed] count("Inhibitor).processAlert") == len(ret("SlurpAndSubscribe")) + countnil0("AlertIterator).Err")
+//@   loop 1 invariant rangeindex < len(ret("SlurpAndSubscribe")) && count("Inhibitor).processAlert") == rangeindex + 1 && !called("WaitGroup).Done")
+//@   loop 2 invariant count("Inhibitor).processAlert") == len(ret("SlurpAndSubscribe")) + countnil0("AlertIterator).Err") && count("WaitGroup).Done") == 1
+//@   noeffect Inhibitor).processAlert
